@@ -8,30 +8,52 @@ open GoRes.Pool
 mutex) — across any number of start/stop cycles the started ones are a subsequence … -/
 theorem order_preserved (acts : List Act) (s : St) (h : run init acts = some s) (g : Nat) (hg : g ≠ 0) :
     (cbsOf g s.started).Sublist (cbsOf g s.accepted) := by
-  sorry
+  have h0 : Ord (view g init) := ⟨[], rfl, List.Sublist.refl _⟩
+  obtain ⟨pre, h1, h2⟩ := ord_run Inv.init h g hg h0
+  simp only [view] at h1 h2
+  rw [h1]
+  exact h2.trans (List.sublist_append_left _ _)
 
 /-- … and **exactly once, never dropped**: as long as Shutdown has not closed the queue, what was
 accepted for a group is exactly what has started followed by what is still pending, in order -/
 theorem fifo_exact (acts : List Act) (s : St) (h : run init acts = some s) (hno : Act.closeLock ∉ acts)
     (g : Nat) (hg : g ≠ 0) :
     cbsOf g s.started ++ pendingOf g s = cbsOf g s.accepted := by
-  sorry
+  have h0 : Fifo (view g init) := rfl
+  exact fifo_run Inv.init h hno g hg h0
 
 /-- never twice: distinct submissions start at most once each (all groups, Parallel included) -/
 theorem never_twice (acts : List Act) (s : St) (h : run init acts = some s)
     (hd : (s.accepted.map (·.2)).Nodup) : (s.started.map (·.2)).Nodup := by
-  sorry
+  have hI := Inv.reachable h
+  rw [List.nodup_iff_count] at hd ⊢
+  intro c
+  have h1 := hd c
+  have h2 := hI.count (fun x => x.2 == c)
+  simp only [List.count_eq_countP, List.countP_map, Function.comp_def] at h1 ⊢
+  omega
 
 /-- nothing runs that was not accepted -/
 theorem started_accepted (acts : List Act) (s : St) (h : run init acts = some s) :
     ∀ x ∈ s.started, x ∈ s.accepted := by
-  sorry
+  have hI := Inv.reachable h
+  intro x hx
+  have h1 : 0 < s.started.countP (· == x) := List.countP_pos_iff.mpr ⟨x, hx, by simp⟩
+  have h2 := hI.count (· == x)
+  have h3 : 0 < s.accepted.countP (· == x) := by omega
+  obtain ⟨y, hy, hxy⟩ := List.countP_pos_iff.mp h3
+  simp at hxy; exact hxy ▸ hy
 
 /-- `rwork` registers exactly the groups that have a live work item while the queue is open, so a
 submission is never appended to a retired item and nothing is retired while callbacks are pending -/
 theorem rwork_exact (acts : List Act) (s : St) (h : run init acts = some s) (hq : s.wq.isSome)
     (g : Nat) (hg : g ≠ 0) : (g ∈ s.rwork ↔ cnt g s = 1) ∧ s.rwork.Nodup := by
-  sorry
+  have hI := Inv.reachable h
+  obtain ⟨q, hq⟩ := Option.isSome_iff_exists.mp hq
+  have hc := hI.core q hq
+  refine ⟨?_, hc.nodup⟩
+  rw [cnt_eq, hq]
+  exact hc.mem g hg
 
 /-- **no lost wake-up**: whenever work is queued, some worker is going to look at the queue
 (it is idle, signalled or running) or some submitter still owes a `Signal`
@@ -40,14 +62,24 @@ theorem no_lost_wakeup (acts : List Act) (s : St) (h : run init acts = some s)
     (hn : ∀ n, Act.serve n ∈ acts → 1 ≤ n) (q : List Work) (hq : s.wq = some q) (hne : q ≠ []) :
     (∃ (i : Nat) (ws : WState), s.workers[i]? = some ws ∧ (ws = WState.idle ∨ ws = WState.waiting true ∨ ∃ w c, ws = WState.running w c)) ∨
     (∃ e ∈ s.inflight, e.needSignal = true) := by
-  sorry
+  rcases (InvW.run InvW.init h hn).nlw q hq hne with ⟨ws, hws, ha⟩ | he
+  · obtain ⟨i, hi⟩ := List.getElem?_of_mem hws
+    exact Or.inl ⟨i, ws, hi, ha⟩
+  · exact Or.inr he
 
 /-- progress: a worker that looks at a non-empty open queue starts the first queued callback -/
 theorem worker_takes_head (s : St) (i : Nat) (w : Work) (f : Nat) (fs : List Nat) (rest : List Work)
     (hq : s.wq = some (⟨w.wid, f :: fs⟩ :: rest)) (hw : s.workers[i]? = some .idle ∨ s.workers[i]? = some (.waiting true)) :
     ∃ s', (step s (.wStart i) = some s' ∨ step s (.wWake i) = some s') ∧
       s'.workers[i]? = some (.running ⟨w.wid, fs⟩ f) ∧ s'.started = s.started ++ [(w.wid, f)] := by
-  sorry
+  have hlt : i < s.workers.length := by
+    rcases hw with h | h <;> exact (List.getElem?_eq_some_iff.mp h).1
+  refine ⟨relook s i, ?_, ?_, ?_⟩
+  · rcases hw with h | h
+    · left; rw [step_wStart, if_pos h]
+    · right; rw [step_wWake, if_pos h]
+  · simp [relook, hq, loopTop, takeNext, hlt]
+  · simp [relook, hq, loopTop, takeNext, startedOf]
 
 /-! ## non-vacuity: a group going idle and busy again keeps its order -/
 example : ∃ s, run init [.serve 1, .subCheck 1 7 1 true, .subLock 1, .subSignal 1, .wStart 0, .wDone 0,
